@@ -23,8 +23,22 @@ fuzz_target!(|data: &[u8]| {
     ctx.insert("xs", &vec![1, 2, 3]);
     ctx.insert("m", &std::collections::BTreeMap::from([("a", 1), ("b", 2)]));
     for name in ["a.html", "b.html"] {
+        // capped at 1 MiB: output growth is a resource question
+        struct Capped<'a>(&'a mut Vec<u8>);
+        impl std::io::Write for Capped<'_> {
+            fn write(&mut self, data: &[u8]) -> std::io::Result<usize> {
+                if self.0.len() + data.len() > (1 << 20) {
+                    return Err(std::io::Error::other("output cap"));
+                }
+                self.0.extend_from_slice(data);
+                Ok(data.len())
+            }
+            fn flush(&mut self) -> std::io::Result<()> {
+                Ok(())
+            }
+        }
         let mut out = Vec::new();
-        match tera.render_to(name, &ctx, &mut out) {
+        match tera.render_to(name, &ctx, Capped(&mut out)) {
             Ok(()) => assert!(std::str::from_utf8(&out).is_ok(), "invalid UTF-8 in output"),
             Err(e) => {
                 let _ = e.to_string();
